@@ -67,6 +67,11 @@ let case_element () =
     let rs = s_run cd elt_empty ops in
     "S n0" ^ String.concat "" (List.map2 (fun o r -> "|" ^ show_res o r) ops rs)
 
+let inject_bytes = ref []
+let read_inject () =
+  let n = nexti () in
+  inject_bytes := List.init n (fun _ -> nexti ())
+
 let case_bits () =
   let n = nexti () in
   let ops = List.init n (fun _ ->
@@ -77,7 +82,11 @@ let case_bits () =
     | "e" -> BEnd (z_of_int (nexti ()))
     | "or" -> BStartRead | "ow" -> BStartWrite | "x" -> BStartRead
     | t -> failwith ("bitop " ^ t)) in
-  let rs = b_run bitelt_new ops in
+  let init = match !inject_bytes with
+    | [] -> bitelt_new
+    | bs -> { b_bits = List.concat (List.map (fun b -> List.init 8 (fun i -> (b lsr (7 - i)) land 1 = 1)) bs);
+              b_pos = Z0; b_writing = false } in
+  let rs = b_run init ops in
   "S n0" ^ String.concat "" (List.map2 (fun o r ->
     match r, o with
     | RNoDomain, _ -> "|?"
@@ -134,7 +143,8 @@ let case_hdecode () =
 (* bit cases on the model: sequential write phase, flush, read phases (seeks only while reading) *)
 let case_bits_model () =
   let n = nexti () in
-  let w = ref (Some bitw_init) and bytes = ref [] and rd = ref None and out = Buffer.create 256 in
+  let w = ref (if !inject_bytes = [] then Some bitw_init else None)
+  and bytes = ref (List.map z_of_int !inject_bytes) and rd = ref None and out = Buffer.create 256 in
   let supported = ref true in
   Buffer.add_string out "M n0";
   for _ = 1 to n do
@@ -175,7 +185,11 @@ let () =
       if have () then begin
         let out = (try (match next () with
           | "E" -> case_element ()
-          | "B" -> let save = !ti in let a = case_bits () in ti := save; a ^ "\n" ^ case_bits_model ()
+          | "B" -> inject_bytes := [];
+                   let save = !ti in let a = case_bits () in ti := save; a ^ "\n" ^ case_bits_model ()
+          | "BI" -> read_inject ();
+                   let save = !ti in let a = case_bits () in ti := save;
+                   let m = a ^ "\n" ^ case_bits_model () in inject_bytes := []; m
           | "V" -> case_verify ()
           | "H" -> case_header ()
           | "D" -> case_hdecode ()
